@@ -111,6 +111,15 @@ fn enc_psk(id: u8, nonce: &[u8]) -> Vec<u8> {
     v
 }
 
+fn enc_resumption_psk(gid: &[u8], epoch: u64, nonce: &[u8]) -> Vec<u8> {
+    // PreSharedKey proposal, psktype = resumption, usage = application
+    let mut v = vec![0, 4, 2, 1];
+    put_vec(&mut v, gid);
+    v.extend_from_slice(&epoch.to_be_bytes());
+    put_vec(&mut v, nonce);
+    v
+}
+
 fn enc_reinit(gid: &[u8], suite: u16) -> Vec<u8> {
     let mut v = vec![0, 5];
     put_vec(&mut v, gid);
@@ -350,7 +359,7 @@ pub fn do_forge(w: &mut World, s: usize, g: usize, template: u64, q: usize) -> V
     let victim = others.get(q % others.len().max(1)).copied();
     let mut r = crate::prng::Prng::new(crate::prng::mix(&[w.seed, w.step_no as u64, 0xf0f]));
     // proposals by value
-    let (props, name, rule_expected): (Vec<Vec<u8>>, &str, bool) = match template % 8 {
+    let (props, name, rule_expected): (Vec<Vec<u8>>, &str, bool) = match template % 9 {
         0 => {
             // sanity: one valid Add - must pass every rule and fail only at the (random) confirmation tag
             let banned = w.cfg.knob("banned").map(|_| w.parties.len() - 1);
@@ -382,6 +391,12 @@ pub fn do_forge(w: &mut World, s: usize, g: usize, template: u64, q: usize) -> V
         6 => {
             let beyond = rec.roster.iter().map(|(i, _, _)| *i).max().unwrap_or(0) + 7;
             (vec![enc_remove(beyond)], "remove-non-member", true)
+        }
+        8 => {
+            // a resumption PSK of the current epoch number - of a group nobody here belongs to
+            let nh = HashAlg::for_suite(w.cfg.suite).len();
+            let n = r.bytes(nh);
+            (vec![enc_resumption_psk(b"some-other-group", epoch, &n)], "resumption-psk-of-foreign-group", true)
         }
         _ => {
             // add the key package of somebody who is already a member (duplicate identity and keys)
